@@ -184,6 +184,8 @@ func checkC09(c *Ctx, r *Report) {
 	checkSharedProvider(c, r, "C09.f")
 
 	ruleEarlyExitInventory(c, r, "C09.c", 1, "core/pipeline", "generator/routes")
+	// positional data (call arguments) keeps declaration order: no unreviewed sort on the way
+	ruleSortInventory(c, r, "C09.e", "core/metadata", "core/pipeline", "generator/routes")
 	// every element filter in these packages is a reviewed one
 	ruleSkipInventory(c, r, "C09.c", loadSkipTable(c.VerifDir), 3, "core/pipeline", "generator/routes")
 }
